@@ -113,6 +113,10 @@ class Simulator:
                 leaf = self.propagatables[i]
                 pos = self.findFirstDependentPosition(leaf)
                 
+                if (pos == i and not(leaf.isClockable())):
+                    # the first circuit depending on this leaf is the leaf itself
+                    raise Exception('Combinational loop: {} drives its own input'.format(leaf.getFullPath()))
+
                 if (pos >= 0 and pos < i):
                     # exchange position, put dependent last
                     first = self.propagatables[pos]
